@@ -131,10 +131,6 @@ impl Literal {
         let mut enum_names = HashSet::with_capacity(checked.enum_defs.len());
         struct_names.extend(checked.struct_defs.keys());
         enum_names.extend(checked.enum_defs.keys());
-        let top_level_defs = TopLevelTypes {
-            struct_names,
-            enum_names,
-        };
         let mut env = Env::new();
         let mut fns = TypedFns::new();
         let const_types = checked
@@ -142,6 +138,11 @@ impl Literal {
             .iter()
             .map(|(n, c)| (n.clone(), c.ty.clone()))
             .collect();
+        let top_level_defs = TopLevelTypes {
+            struct_names,
+            enum_names,
+            const_types: &const_types,
+        };
         let defs = Defs::new(&const_types, &checked.struct_defs, &checked.enum_defs);
         let mut untyped = scan(literal)?.parse_literal()?;
         // Numbers without a type suffix get the type that is expected at their position before
